@@ -71,7 +71,8 @@ def repr_dps(n):
     a number with n-bit precision so that it can be uniquely
     reconstructed from the representation."""
     dps = prec_to_dps(n)
-    if dps == 15:
+    # 17 digits identify a number of at most 53 bits (10**16 > 2**53)
+    if dps == 15 and n <= 53:
         return 17
     return dps + 3
 
